@@ -13,6 +13,10 @@ def run(db, res, tier):
     npairs += r_pair.check_pairs(res, db, entry, st, lit={"restore": True})
     npairs += r_pair.check_pairs(res, db, entry, st, lit={"restore": False}, require_recompute=False)
   res.floor("save/restore pairs", npairs, 4)
+  nmw = 0
+  for entry in ("set_const.set_const_0", "set_const.set_const_spring"):
+    nmw += r_pair.check_model_writes_before_restore(res, db, entry, st, lit={"restore": True})
+  res.floor("model-writes-before-restore obligations", nmw, 2)
   ncomp = r_pair.check_composed_restore(res, db, "set_const.set_const", st, lit={"restore": True})
   res.floor("composed restore obligations (set_const)", ncomp, 1)
   nloop = 0
@@ -27,7 +31,7 @@ def run(db, res, tier):
   res.floor("set_const bindings", n, 65)
   n1, n2 = r_ref.check_reference_fields(res, db.launch_ctxs())
   res.floor("reference-offset decode sites (package-wide)", n1, 4)
-  res.rule_text = "R-REF.1: every reference offset field written by set_const as `X - base[idx]` is decoded by the step kernels against one of the same base cells; R-PAIR: set_const_0 / set_const_spring / set_const restore every integration-state field they overwrite, on every path and as the last write; with restore=True every Data field computed at the temporary state is recomputed after the restore; R-PAIR.3: the composed set_const(restore=True) recomputes after the last restore every Data field that any nested helper evaluated at a temporary state, also under a case split on each configuration atom of the re-run stages (e.g. `m.ntendon == 0`); R-LIVE.4: the scratch vectors that the per-tendon / per-actuator / per-body loops fill by sparse-column scatter and then solve with are cleared inside each iteration before the scatter; R-BATCH: every batched field read or written by the set_const kernels is indexed by the thread's batch index modulo that field's own size; R-BIND: launch bindings conform"
+  res.rule_text = "R-REF.1: every reference offset field written by set_const as `X - base[idx]` is decoded by the step kernels against one of the same base cells; R-PAIR: set_const_0 / set_const_spring / set_const restore every integration-state field they overwrite, on every path and as the last write; with restore=True every Data field computed at the temporary state is recomputed after the restore; R-PAIR.4: in set_const_0 / set_const_spring no launch writes a Model field from Data or scratch arrays after the state field was restored (derived Model fields are evaluated at the reference configuration); R-PAIR.3: the composed set_const(restore=True) recomputes after the last restore every Data field that any nested helper evaluated at a temporary state, also under a case split on each configuration atom of the re-run stages (e.g. `m.ntendon == 0`); R-LIVE.4: the scratch vectors that the per-tendon / per-actuator / per-body loops fill by sparse-column scatter and then solve with are cleared inside each iteration before the scatter; R-BATCH: every batched field read or written by the set_const kernels is indexed by the thread's batch index modulo that field's own size; R-BIND: launch bindings conform"
   res.explanation = "Decides the state-restoration and batched-indexing clauses of C33. Not decided: that the derived values equal mj_setConst's (numeric)."
   res.extra["analysed"] = common.analysed(db, lcs)
   res.assumptions += ["tabled binding exception qpos0 <- m.qpos_spring in set_const_spring"]
